@@ -360,12 +360,12 @@ theorem parseOpt_print (o : TcpOption) (h : WFOpt o) {r : Str} (hr : Delim r) :
   | unknown n =>
     have h' : n ≤ u8Max := h
     simp [parseOpt, alt, printOpt, prefixNum, tag_cons_ne, altTags_none_of_head plainOptTable_noQuestion,
-      optUnknown, digit1_natDigits n hnd, parseMax_natDigits h']
+      number_natDigits h' hnd]
   | nop | mss | ws | sok | sack | ts =>
     exact parseOpt_print_plain _ (fun n => ⟨by simp, by simp⟩) r
 
 theorem parseOpt_colon (r : Str) : parseOpt (':' :: r) = none := by
-  simp [parseOpt, alt, prefixNum, tag_cons_ne, altTags_none_of_head plainOptTable_noColon, optUnknown]
+  simp [parseOpt, alt, prefixNum, tag_cons_ne, altTags_none_of_head plainOptTable_noColon]
 
 theorem parseQuirk_colon (r : Str) : parseQuirk (':' :: r) = none :=
   altTags_none_of_head quirkTable_noColon r
